@@ -631,6 +631,9 @@ func (d *driver) currentScanOffset() uint64 {
 
 func (d *driver) crash() {
 	in := d.in
+	if in == nil {
+		return
+	}
 	passthrough.Store(true)
 	in.dead.Store(true)
 	close(in.gates["flusher"])
